@@ -10,13 +10,13 @@ META = dict(
 
 
 def run(chk):
-    t = facework.run(chk, 'C01', {'fuzz': (300, 100000), 'sweep': (2400, 80000), 'field': (2400, 80000), 'rel': (2400, 80000), 'tail': (768, 13312), 'random': (1200, 60000), 'trunc': (300, 8000),
+    t = facework.run(chk, 'C01', {'fuzz': (300, 100000), 'sweep': (2400, 80000), 'field': (2400, 80000), 'rel': (2400, 80000), 'tail': (768, 13312), 'cut': (1200, 4000), 'random': (1200, 60000), 'trunc': (300, 8000),
                                   'dir': (300, 8000), 'hostile': (200, 4000)})
     if chk.tier == 'thorough':
         from .. import fuzzwork
         fuzzwork.run_fuzz(chk, 'fz_face', 16 * 1500000, seeds_kind=(('c06', 60), ('hostile', 40), ('just', 30), ('feat', 20), ('cmap', 20)))
     chk.coverage['rule'] = ('one case = (base font, mutation, options 0..7, callbacks or file, release_table present or NULL); mutations: historical single-byte crashers (tests/fuzz-tests/**.fuzz), boundary values at structure-derived '
-                            'offsets (sfnt directory, table headers, Silf subtable / pass headers / class map / lookup-class headers / code offset arrays), 16/32-bit field edits singly and in adjacent pairs, every byte value at the last bytes of every parsed table, seeded random bytes biased to the first 2 KB of '
+                            'offsets (sfnt directory, table headers, Silf subtable / pass headers / class map / lookup-class headers / code offset arrays), 16/32-bit field edits singly and in adjacent pairs, every byte value at the last bytes of every parsed table, systematic truncations (every parsed table at its first 96 / last 48 bytes; the last Silf pass at every byte with its end offset patched), seeded random bytes biased to the first 2 KB of '
                             'each table, truncations/extensions, directory damage, hostile get_table answers. Non-trivial: the mutated font still loaded (and was queried and shaped) or the load failed; distinct by per-case seed / enumeration index.')
     chk.require(chk.coverage['distinct_load_failure_codes'] >= 12, 'too few distinct load-failure codes tripped: %d' % chk.coverage['distinct_load_failure_codes'])
     chk.require(t.get('mutated_font_loaded', 0) > 500, 'too few mutated fonts got past the loader')
